@@ -51,6 +51,8 @@ type Trace struct {
 	TermLimit int
 	// TermDeadline, if set, is armed as read deadline by terminal recorders.
 	TermDeadline time.Duration
+	// ReadBuf, if set, is the buffer size terminal recorders hand to Read on this connection.
+	ReadBuf int
 }
 
 func NewTrace() *Trace { return &Trace{Done: make(chan struct{})} }
@@ -264,6 +266,8 @@ type Term struct {
 	ID string `json:"id,omitempty"`
 	// Echo writes the bytes back to the client after the stream ended.
 	Echo bool `json:"echo,omitempty"`
+	// Buf is the size of the buffer handed to Read (default 1500).
+	Buf int `json:"buf,omitempty"`
 }
 
 func (*Term) CaddyModule() caddy.ModuleInfo {
@@ -273,7 +277,7 @@ func (*Term) CaddyModule() caddy.ModuleInfo {
 func (h *Term) Handle(cx *layer4.Connection, _ layer4.Handler) error {
 	tr := traceOf(cx)
 	ev := entryEvent("term", h.ID, cx)
-	ReadAll(cx, tr, &ev)
+	readAllBuf(cx, tr, &ev, h.Buf)
 	if h.Echo && len(ev.Data) > 0 {
 		_, _ = cx.Write(ev.Data)
 	}
@@ -285,15 +289,23 @@ func (h *Term) Handle(cx *layer4.Connection, _ layer4.Handler) error {
 }
 
 // ReadAll drains cx into ev.Data obeying the trace's limits.
-func ReadAll(cx *layer4.Connection, tr *Trace, ev *Event) {
+func ReadAll(cx *layer4.Connection, tr *Trace, ev *Event) { readAllBuf(cx, tr, ev, 0) }
+
+func readAllBuf(cx *layer4.Connection, tr *Trace, ev *Event, bufSize int) {
 	limit, dl := 0, time.Duration(0)
 	if tr != nil {
 		limit, dl = tr.TermLimit, tr.TermDeadline
+		if tr.ReadBuf > 0 {
+			bufSize = tr.ReadBuf
+		}
+	}
+	if bufSize <= 0 {
+		bufSize = 1500
 	}
 	if dl > 0 {
 		_ = cx.Conn.SetReadDeadline(time.Now().Add(dl))
 	}
-	tmp := make([]byte, 1500)
+	tmp := make([]byte, bufSize)
 	for {
 		want := len(tmp)
 		if limit > 0 && limit-len(ev.Data) < want {
